@@ -102,6 +102,8 @@ type interpreter struct {
 	stubs     map[string]bool
 	bounds    map[string]bool
 	chanSeq   int
+	timeAdvances int
+	livelock  bool
 	panicStack []string
 	pcHash    [2]uint64
 	natives   map[*value]interface{}
